@@ -50,9 +50,20 @@ pub fn drive_block(t: &mut Tracer, tier: &str, seed: u64, plan: Option<String>) 
             let sess = format!("sm4/craft{}", hex::encode(key));
             if let Some(c) = new_cipher(t, &sess, key) { for (enc, b) in blocks { block_op(t, &sess, &c, *enc, "crafted", b); } }
         }
+        // crafted keys: the key-schedule transform of one round receives 00000000 / FFFFFFFF
         for (n, line) in text.lines().enumerate() {
             let v: Value = serde_json::from_str(line).unwrap();
-            if v["kind"] == "craft" { continue; }
+            if v["kind"] != "craftkey" { continue; }
+            let sess = format!("sm4/craftkey{}", n);
+            if let Some(c) = new_cipher(t, &sess, &arrb(&v["key"])) {
+                let b = rng.bytes(16);
+                let o = block_op(t, &sess, &c, true, "craftedkey", &b);
+                if o.len() == 16 { block_op(t, &sess, &c, false, "craftedkey", &o); }
+            }
+        }
+        for (n, line) in text.lines().enumerate() {
+            let v: Value = serde_json::from_str(line).unwrap();
+            if v["kind"] == "craft" || v["kind"] == "craftkey" { continue; }
             let key = rng.bytes(16);
             let sess = format!("sm4/seq{}", n);
             let c = match new_cipher(t, &sess, &key) { Some(c) => c, None => continue };
